@@ -53,6 +53,10 @@ def native_check(version, node_ids, node_id, child_id, fail_write):
             failed.append("C11/fail-only-when-full")
         return failed, outcome, tr.writes
     except TransportError:
+        # "registered before the answer is written": the node may have seen the answer, the id stays taken
+        new = set(gw.nodes) - before
+        if len(new) != 1 or not 1 <= next(iter(new)) <= 254 or before - set(gw.nodes):
+            failed.append("C11/write-failed-still-registered")
         return failed, "TransportError", tr.writes
     new = set(gw.nodes) - before
     if len(new) != 1:
